@@ -7,10 +7,11 @@
   contents), over a world of named containers with a log of every identity ever constructed / finalised.
   Source-derived facts: CelloGen/Own.lean (which functions of the container sources call destruct / assign / memcpy).
 
-  The property as stated is false on this tree in three places (known findings; the model mirrors them):
+  The property as stated is false on this tree in two places (known findings; the model mirrors them):
     * Box_Assign copies the pointer (F28): containers of Box are copied shallowly, `set` drops the old pointee;
-    * List_Resize(n > len) links zero-filled, never constructed elements;
-    * a List_Push_At that raises has already constructed the element and leaks it.
+    * List_Resize(n > len) links zero-filled, never constructed elements.
+  (A third defect found by this engine — a List_Push_At that raised had already constructed the element and leaked
+  it — was repaired in /repo by 4077d96; `C05_list_pushat_old_order_refuted` keeps the witness against the old order.)
   `inContract` excludes exactly these; the theorems named `…_partial` are proved for every history of in-contract
   operations, the full statements are kept as `…_statement` and refuted (`…_refuted`) on concrete witnesses.
 -/
@@ -50,11 +51,10 @@ theorem C05_conservation_array (next : Nat) (xs src : List Tok) (i : Int) (p n :
   ⟨cons_seqPush _ _ _, cons_arrayPushAt _ _ _ _, cons_seqPop _, cons_seqPopAt _ _, cons_seqSetProbe _ _ _ _,
    cons_seqRem _ _, cons_arrayResize _ _, cons_seqConcatProbe _ _ _, cons_seqAssignProbe _ _ _, cons_seqSort _⟩
 
-/-- **List.c**: the operations that differ from Array: push_at (when it does not raise) and resize (when it does not
-    grow); push, pop, pop_at, set, rem, concat, assign are the same functions as for Array. -/
+/-- **List.c**: the operations that differ from Array: push_at (every index, accepted or refused) and resize (when it
+    does not grow); push, pop, pop_at, set, rem, concat, assign are the same functions as for Array. -/
 theorem C05_conservation_list (next : Nat) (xs : List Tok) (i : Int) (p n : Nat) :
-    ((listPushAt next xs i p).out = .ok →
-      let r := listPushAt next xs i p; Conserves xs r.val r.issued r.retired ∧ FreshFrom next r.issued) ∧
+    (let r := listPushAt next xs i p; Conserves xs r.val r.issued r.retired ∧ FreshFrom next r.issued) ∧
     (n ≤ xs.length → let r := listResize xs n; Conserves xs r.val r.issued r.retired ∧ r.issued = []) :=
   ⟨cons_listPushAt _ _ _ _, cons_listResize _ _⟩
 
@@ -266,8 +266,6 @@ def C05_deep_statement : Prop :=
 
 /-- Array of Box: push two, copy, delete the original -/
 def kfBoxCopy : List Op := [.new 0 .boxArr, .push 0 1, .push 0 2, .copy 1 0, .del 0]
-/-- List: one element, then push_at a position that does not exist -/
-def kfListPushAt : List Op := [.new 0 .lst, .push 0 1, .pushAt 0 5 9]
 /-- List: resize an empty list to 3 -/
 def kfListResize : List Op := [.new 0 .lst, .resize 0 3]
 /-- Array of Box: `set` over a stored Box -/
@@ -285,18 +283,38 @@ theorem C05_never_while_contained_refuted : ¬ C05_never_while_contained_stateme
   intro h
   exact h kfBoxCopy 1 (by decide) (by decide)
 
-/-- a failing List_Push_At constructs an element that is neither stored nor finalised: conservation fails -/
+/-- `set` on a stored Box constructs nothing in the container's name and finalises nothing, yet the old pointee leaves
+    the container: conservation fails -/
 theorem C05_conservation_refuted : ¬ C05_conservation_statement := by
   intro h
-  have hinv : Inv (run {} [.new 0 .lst, .push 0 1]).1 := run_inv inv_init _ ⟨rfl, rfl, trivial⟩
-  have := (h _ (.pushAt 0 5 9) hinv).length_eq
+  have hinv : Inv (run {} [.new 0 .boxArr, .push 0 1]).1 := run_inv inv_init _ ⟨rfl, rfl, trivial⟩
+  have := (h _ (.set 0 0 5) hinv).length_eq
   revert this; decide
 
-/-- the history statement fails as well: after the failing push_at (and likewise after `set` on a stored Box) a
-    constructed element is neither finalised nor contained -/
+/-- the history statement fails as well: after `set` on a stored Box a constructed element is neither finalised nor
+    contained -/
 theorem C05_history_refuted : ¬ C05_history_statement := by
   intro h
-  have := (h kfListPushAt).1.length_eq
+  have := (h kfBoxSet).1.length_eq
+  revert this; decide
+
+/-- List_Push_At as it was before fix 4077d96: `List_Alloc` + `assign` first, the index check (`List_At`) afterwards -/
+def listPushAtOldOrder (next : Nat) (xs : List Tok) (i : Int) (p : Nat) : Res (List Tok) :=
+  let t : Tok := ⟨next, p⟩
+  if i = 0 then { val := t :: xs, issued := [t] }
+  else
+    let n : Int := xs.length
+    let j : Int := if i < 0 then n + i else i
+    if j < 0 ∨ j ≥ n then { val := xs, issued := [t], out := .raised .indexOutOfBounds }
+    else { val := xs.insertIdx j.toNat t, issued := [t] }
+
+/-- the repaired defect: with the old order a refused push_at had constructed an element that was neither stored nor
+    finalised (regression witness `corpus/own_list_pushat.ops`); the present order conserves (`C05_conservation_list`) -/
+theorem C05_list_pushat_old_order_refuted :
+    let r := listPushAtOldOrder 2 [⟨1, 1⟩] 5 9
+    r.out = .raised .indexOutOfBounds ∧ ¬ Conserves [⟨1, 1⟩] r.val r.issued r.retired := by
+  refine ⟨by decide, fun h => ?_⟩
+  have := h.length_eq
   revert this; decide
 
 /-- List_Resize growing a list: the list reports 3 elements, none was ever constructed -/
